@@ -160,7 +160,10 @@ func (c *conn) handleSubscribe(in *inEnvelope) error {
 
 	initial := true
 	c.subscriptionLogger.Subscribe(c.ctx, id, tags)
-	c.subscriptions[id] = reactive.NewRerunner(c.ctx, func(ctx context.Context) (interface{}, error) {
+	// self is the rerunner of this subscription. It is written below and read by
+	// closeOwnSubscription, both under c.mu.
+	var self *reactive.Rerunner
+	self = reactive.NewRerunner(c.ctx, func(ctx context.Context) (interface{}, error) {
 		ctx = c.makeCtx(ctx)
 		ctx = batch.WithBatching(ctx)
 
@@ -194,7 +197,7 @@ func (c *conn) handleSubscribe(in *inEnvelope) error {
 
 		if err != nil {
 			if ErrorCause(err) == context.Canceled {
-				go c.closeSubscription(id)
+				go c.closeOwnSubscription(id, &self)
 				return nil, err
 			}
 
@@ -220,7 +223,7 @@ func (c *conn) handleSubscribe(in *inEnvelope) error {
 				Message:  SanitizeError(err),
 				Metadata: output.Metadata,
 			})
-			go c.closeSubscription(id)
+			go c.closeOwnSubscription(id, &self)
 
 			if _, ok := err.(SanitizedError); !ok {
 				c.logger.Error(ctx, err, tags)
@@ -251,6 +254,7 @@ func (c *conn) handleSubscribe(in *inEnvelope) error {
 		initial = false
 		return nil, nil
 	}, c.minRerunIntervalFunc(c.ctx, query), c.alwaysSpawnGoroutineFunc(c.ctx, query))
+	c.subscriptions[id] = self
 
 	return nil
 }
@@ -291,7 +295,9 @@ func (c *conn) handleMutate(in *inEnvelope) error {
 
 	initial := true
 	e := c.executor
-	c.subscriptions[id] = reactive.NewRerunner(c.ctx, func(ctx context.Context) (interface{}, error) {
+	// self is the rerunner of this mutation; see handleSubscribe.
+	var self *reactive.Rerunner
+	self = reactive.NewRerunner(c.ctx, func(ctx context.Context) (interface{}, error) {
 		// Serialize all mutates for a given connection.
 		c.mutateMu.Lock()
 		defer c.mutateMu.Unlock()
@@ -334,7 +340,7 @@ func (c *conn) handleMutate(in *inEnvelope) error {
 				Metadata: output.Metadata,
 			})
 
-			go c.closeSubscription(id)
+			go c.closeOwnSubscription(id, &self)
 
 			if ErrorCause(err) == context.Canceled {
 				return nil, err
@@ -356,9 +362,10 @@ func (c *conn) handleMutate(in *inEnvelope) error {
 		go c.rerunSubscriptionsImmediately()
 
 		initial = false
-		go c.closeSubscription(id)
+		go c.closeOwnSubscription(id, &self)
 		return nil, errors.New("stop")
 	}, c.minRerunIntervalFunc(c.ctx, query), c.alwaysSpawnGoroutineFunc(c.ctx, query))
+	c.subscriptions[id] = self
 
 	return nil
 }
@@ -372,12 +379,21 @@ func (c *conn) rerunSubscriptionsImmediately() {
 	}
 }
 
+// closeSubscription ends whatever is registered under id (client unsubscribe).
 func (c *conn) closeSubscription(id string) {
+	c.closeOwnSubscription(id, nil)
+}
+
+// closeOwnSubscription is how a run ends the subscription or mutation it belongs
+// to: it runs on a goroutine of its own, and by the time it gets the lock the
+// client may have unsubscribed the id and subscribed to it again. Only the entry
+// that still holds *self is closed; a nil self closes any entry.
+func (c *conn) closeOwnSubscription(id string, self **reactive.Rerunner) {
 	verifYield("closeSubscription.enter")
 	c.mu.Lock()
 	defer c.mu.Unlock()
 
-	if runner, ok := c.subscriptions[id]; ok {
+	if runner, ok := c.subscriptions[id]; ok && (self == nil || runner == *self) {
 		runner.Stop()
 		delete(c.subscriptions, id)
 		c.subscriptionLogger.Unsubscribe(c.ctx, id)
